@@ -276,7 +276,7 @@ func runC05(r *Run, p *Prog) {
 					}
 					n++
 					c, isC := st.Val.(*ssa.Call)
-					okSrc := isC && calleeName(&c.Call) == "bytes.Buffer.String" && strings.HasSuffix(strip(T.T(c.Call.Args[0])), ".lastComment")
+					okSrc := isC && m.accMethod(c) == "String"
 					// order: skipper call -> String() -> name reader, with no other skipper call between
 					okOrder := false
 					if isC {
@@ -314,8 +314,8 @@ func runC05(r *Run, p *Prog) {
 				if !ok {
 					continue
 				}
-				switch calleeName(&c.Call) {
-				case "bytes.Buffer.Reset":
+				switch m.accMethod(c) {
+				case "Reset":
 					nReset++
 					_, okNL := m.nextEq(T.FactsAt(b), '\n')
 					sites := a.readSites(sk)
@@ -324,17 +324,17 @@ func runC05(r *Run, p *Prog) {
 						first = t == T.T(sites[0])
 					}
 					r.Ob("K4", shortName(sk), "the pending comment is dropped exactly on a newline read as layout", c.Pos(), okNL && first, "the comment accumulator is reset on an edge other than `layout byte == newline`: a comment block directly above a member is lost (or a stale one kept)")
-				case "bytes.Buffer.WriteString":
+				case "WriteString":
 					nWrite++
 					sl, isSl := c.Call.Args[1].(*ssa.Slice)
-					okSl := isSl && strings.HasSuffix(strip(T.T(sl.X)), ".input") && sl.Low != nil && sl.High != nil
+					okSl := isSl && strings.HasSuffix(strip(T.T(sl.X)), "."+m.inputField()) && sl.Low != nil && sl.High != nil
 					r.Ob("K4", shortName(sk), "the comment text recorded is input[start:position]", c.Pos(), okSl, "what is appended to the pending comment is not a slice of the input")
-				case "bytes.Buffer.WriteByte":
+				case "WriteByte":
 					k, isK := c.Call.Args[1].(*ssa.Const)
 					okJ := isK && k.Int64() == '\n'
 					okG := false
 					for _, f := range T.FactsAt(b) {
-						if (f.Op == "LT" && f.A == "const:0" || f.Op == "NE" && (f.A == "const:0" || f.B == "const:0")) && strings.Contains(f.A+f.B, "bytes.Buffer.Len(") {
+						if (f.Op == "LT" && f.A == "const:0" || f.Op == "NE" && (f.A == "const:0" || f.B == "const:0")) && (strings.Contains(f.A+f.B, "bytes.Buffer.Len(") || strings.Contains(f.A+f.B, "strings.Builder.Len(")) {
 							okG = true
 						}
 					}
@@ -358,7 +358,7 @@ func runC05(r *Run, p *Prog) {
 					nd++
 					r.Ob("K6", shortName(e), "Description is the text given to the parser, unchanged", st.Pos(), strip(T.T(st.Val)) == "param:"+e.Params[0].Name(), "Description = "+strip(T.T(st.Val)))
 				}
-				if st, ok := in.(*ssa.Store); ok && strings.HasSuffix(strip(T.T(st.Addr)), ".input") {
+				if st, ok := in.(*ssa.Store); ok && strings.HasSuffix(strip(T.T(st.Addr)), "."+m.inputField()) {
 					r.Ob("K6", shortName(e), "the parser reads the text given to it, unchanged", st.Pos(), strip(T.T(st.Val)) == "param:"+e.Params[0].Name(), "input = "+strip(T.T(st.Val)))
 				}
 			}
